@@ -147,7 +147,10 @@ def showSt (s : St) : String :=
   let ch := (s.ids.filter (fun k => (s.cli k).child)).length
   "L" ++ b01 s.listening ++ " A" ++ b01 s.acceptAlive ++ " c" ++ toString (s.ids.filter (fun k => (s.cli k).tracked)).length ++
     " f" ++ toString (s.ids.filter (fun k => (s.cli k).inFd)).length ++
-    " p" ++ toString (s.ids.filter (fun k => (s.cli k).polled)).length ++ " q" ++ toString s.queue.length ++
+    -- poll registrations and queue entries of a pool that has been closed are nobody's business any more (no thread looks
+    -- at them; which of them the poller still removed in its last round is a race): reported as 0 by both sides
+    " p" ++ toString (if s.cfg.kind == .pool && !s.poolUp then 0 else (s.ids.filter (fun k => (s.cli k).polled)).length) ++
+    " q" ++ toString (if s.cfg.kind == .pool && !s.poolUp then 0 else s.queue.length) ++
     " fd" ++ toString fds ++ " ch" ++ toString ch ++ " n" ++ toString s.frames ++ "|" ++
     " ".intercalate ((s.ids.filter (fun k => (s.cli k).phase != .absent)).map (showCli s))
 
@@ -193,6 +196,11 @@ def runToks (dbg : Bool) : List Tok → St → List (Option Nat) → List String
          | .error _ => fin s "skip" lends)
       | _ => fin s "skip" lends
 
+/-- the configuration of the code as it is: the two measured facts about the pool come from the generated constants -/
+def cfgOfCode (kind : Kind) (auth : Bool) (nb : Nat) : Cfg :=
+  { kind := kind, auth := auth, nb := nb, spare := Gen.Srv.poolDropSparesNewcomer,
+    closeUnblocks := Gen.Srv.poolCloseUnblocksWorkers }
+
 def showItem : Item → String
   | .req _ _ => "q" | .handled => "h" | .empty => "e" | .bad => "b" | .part => "t" | .bye => "y" | .fin => "f"
 
@@ -202,14 +210,14 @@ def serverOp : List String → String
           parseNatChars nb.toList, toks.mapM parseTok with
     | some kind, some auth, some nb, some toks =>
       " ; ".intercalate (runToks false toks
-        (init { kind := kind, auth := auth, nb := nb, spare := Gen.Srv.poolDropSparesNewcomer }) [] [])
+        (init (cfgOfCode kind auth nb)) [] [])
     | _, _, _, _ => "bad-op"
   | "debug" :: kind :: auth :: nb :: toks =>
     match parseKind kind, (match auth with | "T" => some true | "F" => some false | _ => none),
           parseNatChars nb.toList, toks.mapM parseTok with
     | some kind, some auth, some nb, some toks =>
       " ; ".intercalate (runToks true toks
-        (init { kind := kind, auth := auth, nb := nb, spare := Gen.Srv.poolDropSparesNewcomer }) [] [])
+        (init (cfgOfCode kind auth nb)) [] [])
     | _, _, _, _ => "bad-op"
   | ["classify", h] =>
     match parseHex h with
